@@ -63,9 +63,11 @@ Verdict(e) ==
   LET f1 == Fails(e.r, e.events[2])
       f2 == Fails(e.r2, e.events[4])
       f3 == Fails(e.r3, e.events[6])
+      f4 == Fails(e.r, e.events[8])     \* back to r, through the caller's own (edited) array
       sc == IF e.events[4].obs.exc = "" /\ e.events[6].obs.exc = "" /\ ~Scaling(e.events[4].obs, e.events[6].obs)
             THEN {"Scaling|effective_resistance"} ELSE {}
-      all == f1 \cup {x \o "@update1" : x \in f2} \cup {x \o "@update2" : x \in f3} \cup sc
+      all == f1 \cup {x \o "@update1" : x \in f2} \cup {x \o "@update2" : x \in f3}
+             \cup {x \o "@update3(same array)" : x \in f4} \cup sc
   IN IF all = {} THEN <<"ACCEPT", "", "", "n" \o ToString(e.n)>>
      ELSE <<"REJECT", "Multi", JoinSet(all), "n" \o ToString(e.n)>>
 Verdicts == TLCEval([k \in 1..Len(Trace) |-> Verdict(Trace[k])])
